@@ -1,5 +1,5 @@
 CONSTANTS
-  States = {"empty", "populated"}
+  States = {"empty", "populated", "lottery", "short", "long", "afterlong"}
   TxTos = {"absent", "zero", "self", "known", "stranger", "contract"}
   TxPayloads = {"empty", "garbage", "valid"}
   TxAmounts = {"nil", "zero", "pos"}
@@ -7,7 +7,7 @@ CONSTANTS
   MaxDev = 3
   Enumerate = FALSE
   Cmul = 64
-  Cadd = 67108864
+  Cadd = 16777216
   BoundedDecode = TRUE
 INIT TraceInit
 NEXT TraceNext
